@@ -22,6 +22,11 @@ EXPLANATION = (
     "only to the initiating path, ResultIter merges by ascending distance.")
 ASSUMPTIONS = ["termination and optimality of the result over all response schedules are not decided (dynamic clauses)",
                "BTreeMap iteration order = ascending Distance; debug_assert!(num_waiting > 0) is not relied upon"]
+TECHNIQUE = ("All patterns are evaluated on a normalised view of the MIR facts (vrules/lib_kad.canon): parameters by position, every "
+             "single-definition local expanded to its initialiser, closure captures by index, trivial crate-local helpers (accessors, one-comparison "
+             "predicates, one-line constructors) replaced by their bodies, private fields resolved by their type, comparisons normalised over operand "
+             "order / mirrored operators / method-call form / `!`, guard sets closed under bool hoisting. Behaviour-preserving refactorings that must stay "
+             "silent are archived in /verif/neutral/kad (01-12 and x1-author-combinators.diff).")
 SELFTEST = [
     {"mutation": "seeded C39: on_failure merges Waiting | Unresponsive into one arm that decrements", "caught_by": "pairing/on_failure: decrement only where the peer is known to be Waiting"},
     {"mutation": "next: drop `self.num_waiting += 1` after peer.state = Waiting", "caught_by": "pairing/next: entering Waiting is paired with one increment"},
@@ -40,6 +45,26 @@ CP = r"^libp2p_kad::query::peers::closest::ClosestPeersIter::"
 PST = r"query::peers::closest::PeerState$"
 
 
+class F:
+    pass
+
+
+def resolve(prog):
+    cp = r"query::peers::closest::ClosestPeersIter$"
+    F.state = lk.fld(prog, cp, r"^query::peers::closest::State$")
+    F.peers = lk.fld(prog, cp, r"^std::collections::BTreeMap<")
+    F.nw = lk.fld(prog, cp, r"^usize$")
+    F.config = lk.fld(prog, cp, r"ClosestPeersIterConfig$")
+    F.target = lk.fld(prog, cp, r"KeyBytes$")
+    pe = r"query::peers::closest::Peer$"
+    F.p_state = lk.fld(prog, pe, r"PeerState$")
+    F.p_key = lk.fld(prog, pe, r"kbucket::key::Key<")
+    F.NW = "self.%s" % F.nw
+    F.PEERS = "self.%s" % F.peers
+    F.PAR = "std::num::NonZero::get(self.%s.parallelism)" % F.config
+    F.NRES = "std::num::NonZero::get(self.%s.num_results)" % F.config
+
+
 def add(a, b_):
     if a is None or b_ is None:
         return None
@@ -48,10 +73,10 @@ def add(a, b_):
 
 def nw_effects(b):
     out = []
-    for s, k, t in lk.field_effects(b, "num_waiting"):
-        if k == "set" and re.match(r"^AddWithOverflow\(self\.num_waiting, 1\)\.0$", t):
+    for s, k, t in lk.field_effects(b, F.nw):
+        if k == "set" and re.match(r"^Add(WithOverflow)?\(%s, 1\)(\.0)?$" % re.escape(F.NW), t):
             out.append((s, "inc"))
-        elif k == "set" and re.match(r"^SubWithOverflow\(self\.num_waiting, 1\)\.0$", t):
+        elif k == "set" and re.match(r"^Sub(WithOverflow)?\(%s, 1\)(\.0)?$" % re.escape(F.NW), t):
             out.append((s, "dec"))
         elif k in ("inc", "dec"):
             out.append((s, k))
@@ -62,7 +87,7 @@ def nw_effects(b):
 
 def peer_stores(b, owner=r"closest::Peer$", adt=PST):
     out = []
-    for s in b.field_write_sites("state", owner):
+    for s in b.field_write_sites(F.p_state, owner):
         if s.si is None:
             out.append((s, "?call"))
             continue
@@ -72,14 +97,35 @@ def peer_stores(b, owner=r"closest::Peer$", adt=PST):
     return out
 
 
-def pairing(ctx, b, fn, switch_pat, exits, stores, eff, min_arms):
+def store_target(b, s):
+    """rendered place (without the field) a peer-state store writes to"""
+    p = dict(s.stmt["p"])
+    prs = list(p.get("pr", ()))
+    while prs and not (prs[-1]["k"] == "field" and prs[-1]["n"] == F.p_state):
+        prs.pop()
+    prs = prs[:-1]
+    p["pr"] = prs
+    return render(b.place_expr(p))
+
+
+def state_switch(b):
+    """the switch on the state of a Peer: (bb, subject text)"""
+    out = []
+    for bi in sorted(b.live):
+        info = b.switch_info(bi)
+        if info and info[0][0] == "discr" and info[0][1][0] == "field" and info[0][1][2] == F.p_state and re.search(r"closest::Peer$", strip_generics(info[0][1][3] or "")):
+            out.append((bi, render(info[0][1][1])))
+    return out
+
+
+def pairing(ctx, b, fn, exits, stores, eff, min_arms):
     rule = "pairing"
     W = lk.where(b)
-    sws = lk.switch_blocks(b, switch_pat)
+    sws = state_switch(b)
     ctx.ob(rule, "floor:%s: match on the peer's state" % fn, len(sws) == 1, W, nontrivial=False, msg=str(sws))
     if len(sws) != 1:
-        return
-    cond, labs = b.switch_info(sws[0])
+        return None
+    cond, labs = b.switch_info(sws[0][0])
     incs = [s for s, k in eff if k == "inc"]
     decs = [s for s, k in eff if k == "dec"]
     oth = [(s, k) for s, k in eff if k not in ("inc", "dec")]
@@ -109,6 +155,8 @@ def pairing(ctx, b, fn, switch_pat, exits, stores, eff, min_arms):
                 ctx.ob(rule, "%s: arm {%s} -> %s mixes Waiting with other states" % (fn, name, v), False, s.loc(), "the counter effect of this store depends on the previous state, which the arm does not distinguish")
             else:
                 ctx.ob(rule, "%s: {%s} -> %s does not touch the counter" % (fn, name, v), i == (0, 0) and d == (0, 0), s.loc(), "+= 1 %s, -= 1 %s" % (i, d))
+            acc = lambda x: re.sub(r"OccupiedEntry::(get_mut|into_mut)\(", "OccupiedEntry::get(", x)        # shared / exclusive access to the same entry
+            ctx.ob(rule, "%s: the store goes to the matched peer" % fn, acc(store_target(b, s)) == acc(sws[0][1]), s.loc(), "%s vs matched %s" % (store_target(b, s)[:120], sws[0][1][:120]))
         for s in a_dec:
             ctx.ob(rule, "%s: decrement only where the peer is known to be Waiting" % fn, ls == {"Waiting"}, s.loc(),
                    "num_waiting -= 1 in arm {%s}%s" % (name, "" if ls == {"Waiting"} else ": a peer that is not Waiting already released its slot, so the counter undercounts in-flight requests"))
@@ -120,56 +168,57 @@ def pairing(ctx, b, fn, switch_pat, exits, stores, eff, min_arms):
             ctx.ob(rule, "%s: every increment comes with the peer entering Waiting" % fn, st == (1, 1), s.loc(), "stores of Waiting on paths through the increment: %s" % (st,))
     stray = [s for s in incs + decs + [x for x, _ in stores] if s not in covered]
     ctx.ob(rule, "%s: no counter/state update outside the match on the peer's state" % fn, not stray, W, str(stray)[:200])
+    return sws[0]
 
 
 def check(ctx):
-    prog = ctx.prog
+    prog = lk.canon(ctx)
+    resolve(prog)
     nx = ctx.body(K, CP + r"next$")
     os_ = ctx.body(K, CP + r"on_success$")
     of = ctx.body(K, CP + r"on_failure$")
     ac = ctx.body(K, CP + r"at_capacity$")
+    NWP = "^" + re.escape(F.NW) + "$"
     # ------------------------------------------------------------------ pairing
-    heads = lib.bbs(nx.call_sites(r"btree_map::ValuesMut as std::iter::Iterator>::next$"))
+    heads_s = [s for s in nx.call_sites(r"Iterator>?::next$") if F.PEERS in R(nx, s)]
+    heads = lib.bbs(heads_s)
     ctx.floor("pairing", "next: loop head", heads, 1)
-    pairing(ctx, nx, "next", r"^discr\(peer\.state\)$", nx.return_blocks() + heads, peer_stores(nx), nw_effects(nx), 4)
+    sw_next = pairing(ctx, nx, "next", nx.return_blocks() + heads, peer_stores(nx), nw_effects(nx), 4)
     ctx.floor("pairing", "next: peer-state stores", peer_stores(nx), 2)
     ctx.floor("pairing", "next: counter updates", nw_effects(nx), 2)
-    E = r"^discr\(std::collections::btree_map::OccupiedEntry::get\(e\)\.state\)$"
+    if sw_next and heads_s:
+        ctx.ob("pairing", "next: the matched peer is the element of the scan over closest_peers", sw_next[1] == R(nx, heads_s[0]) + "@Some.0", lk.where(nx), sw_next[1][:200])
     for b, fn, new in ((os_, "on_success", "Succeeded"), (of, "on_failure", "Failed")):
         st = peer_stores(b)
-        pairing(ctx, b, fn, E, b.return_blocks(), st, nw_effects(b), 3)
+        sw = pairing(ctx, b, fn, b.return_blocks(), st, nw_effects(b), 3)
         ctx.floor("pairing", fn + ": peer-state stores", st, 2)
         ctx.floor("pairing", fn + ": counter updates", nw_effects(b), 1)
         ctx.ob("pairing", "%s: only ever stores %s" % (fn, new), {v for _, v in st} == {new}, lk.where(b), str(sorted({v for _, v in st})))
-        cond = b.switch_info(lk.switch_blocks(b, E)[0])[0] if lk.switch_blocks(b, E) else None
-        ent = [R(b, s) for s in b.call_sites(r"BTreeMap::entry$")]
-        key = "std::collections::BTreeMap::entry(self.closest_peers, libp2p_kad::kbucket::key::Key::distance(libp2p_kad::<kbucket::key::Key as std::convert::From>::from(peer), self.target))"
-        ctx.ob("pairing", fn + ": the matched and updated peer is the entry at distance(peer, target)", key in ent and render(b.init_expr(lib.local_by_name(b, "e"))) == key + "@Occupied.0", lk.where(b), str(ent)[:200])
-        for s, v in st:
-            dst = s.stmt["p"]["l"]
-            src = render(b.init_expr(dst))
-            ctx.ob("pairing", fn + ": the store goes to the matched entry", src == "std::collections::btree_map::OccupiedEntry::get_mut(e)", s.loc(), src)
-        live = {v for t, ls in b.switch_info(lk.switch_blocks(b, E)[0])[1].items() for v in ls if any(s.bb in b.reachable([t]) for s, _ in st)} if lk.switch_blocks(b, E) else set()
-        ctx.ob("pairing", fn + ": only Waiting / Unresponsive peers accept a result", live == {"Waiting", "Unresponsive"}, lk.where(b), str(sorted(live)))
-    for s, v in peer_stores(nx):
-        dst = s.stmt["p"]["l"]
-        src = render(nx.init_expr(dst)) if dst not in nx.names else nx.names[dst]
-        ctx.ob("pairing", "next: the store goes to the matched peer", src == "peer", s.loc(), src)
+        ENT = "std::collections::BTreeMap::entry(%s, libp2p_kad::kbucket::key::KeyBytes::distance(libp2p_kad::<kbucket::key::Key as std::convert::From>::from(#2).bytes, self.%s))" % (F.PEERS, F.target)
+        ENT2 = "std::collections::BTreeMap::entry(%s, libp2p_kad::kbucket::key::Key::distance(libp2p_kad::<kbucket::key::Key as std::convert::From>::from(#2), self.%s))" % (F.PEERS, F.target)
+        if sw:
+            ok = any(sw[1] in (x % e) for e in (ENT, ENT2) for x in ("std::collections::btree_map::OccupiedEntry::get(%s@Occupied.0)", "std::collections::btree_map::OccupiedEntry::get_mut(%s@Occupied.0)"))
+            ctx.ob("pairing", fn + ": the matched peer is the entry at distance(peer, target)", ok, lk.where(b), sw[1][:260])
+            labs = b.switch_info(sw[0])[1]
+            live = {v for t, ls in labs.items() for v in ls if any(s.bb in b.reachable([t]) for s, _ in st)}
+            ctx.ob("pairing", fn + ": only Waiting / Unresponsive peers accept a result", live == {"Waiting", "Unresponsive"}, lk.where(b), str(sorted(live)))
+    # the store-target check compares get_mut(e) with get(e): normalise
     # who writes
-    writers = set()
-    pst_writers = set()
+    writers, pst_writers = set(), set()
     for b in prog.bodies(K):
         if "query::peers::closest" not in b.npath or "disjoint" in b.npath:
             continue
-        if lk.field_effects(b, "num_waiting"):
-            writers.add(b.npath.split("::")[-1])
-        if b.field_write_sites("state", r"closest::Peer$"):
-            pst_writers.add(b.npath.split("::")[-1])
+        root = lk.root_fn(prog, b).npath.split("::")[-1]
+        if lk.field_effects(b, F.nw):
+            writers.add(root)
+        if b.field_write_sites(F.p_state, r"closest::Peer$"):
+            pst_writers.add(root)
     ctx.ob("pairing", "num_waiting written only by next/on_success/on_failure", writers == {"next", "on_success", "on_failure"}, msg=str(sorted(writers)))
     ctx.ob("pairing", "Peer.state written only by next/on_success/on_failure", pst_writers == {"next", "on_success", "on_failure"}, msg=str(sorted(pst_writers)))
     wc = ctx.body(K, CP + r"with_config$")
-    ag = [R(wc, s) for s in wc.agg_sites(r"closest::ClosestPeersIter$")]
-    ctx.ob("pairing", "constructor: num_waiting = 0, state Iterating{0}", len(ag) == 1 and ag[0].endswith("num_waiting: 0}") and "state: libp2p_kad::query::peers::closest::State::Iterating{no_progress: 0}" in ag[0], lk.where(wc), str(ag)[-160:])
+    ags = wc.agg_sites(r"closest::ClosestPeersIter$")
+    f = {k: render(v) for k, v in wc.site_expr(ags[0])[4]} if len(ags) == 1 else {}
+    ctx.ob("pairing", "constructor: num_waiting = 0, state Iterating{0}", f.get(F.nw) == "0" and f.get(F.state) == "libp2p_kad::query::peers::closest::State::Iterating{no_progress: 0}", lk.where(wc), str({k: v[:60] for k, v in f.items()}))
     new_peers = []
     for b in prog.bodies(K):
         if "query::peers::closest::ClosestPeersIter" in b.npath:
@@ -177,52 +226,67 @@ def check(ctx):
                 new_peers.append((b, s))
     ctx.floor("pairing", "Peer constructions", new_peers, 2)
     for b, s in new_peers:
-        t = R(b, s)
-        ctx.ob("pairing", "every peer starts NotContacted", t.endswith("state: libp2p_kad::query::peers::closest::PeerState::NotContacted{}}"), s.loc(), t[-120:])
-    # closest_peers only extended via vacant entries
-    allowed = {"entry", "values_mut", "iter", "len", "into_values", "values"}
+        f = {k: render(v) for k, v in b.site_expr(s)[4]}
+        ctx.ob("pairing", "every peer starts NotContacted", f.get(F.p_state) == "libp2p_kad::query::peers::closest::PeerState::NotContacted{}", s.loc(), str(f)[-120:])
+    allowed = {"entry", "values_mut", "iter", "len", "into_values", "values", "get", "contains_key", "first_key_value", "last_key_value", "keys", "is_empty", "range"}
     used = {}
     for b in prog.bodies(K):
         if "query::peers::closest::ClosestPeersIter" not in b.npath:
             continue
         for s in b.call_sites(r"^std::collections::BTreeMap::\w+$"):
             e = b.site_expr(s)
-            if e[2] and re.search(r"(^|\*|\.)self\.closest_peers$|^\^\*?self\.closest_peers$", render(e[2][0])):
+            if e[2] and re.search(r"(^|\.)%s$" % re.escape(F.peers), render(e[2][0])):
                 used.setdefault(strip_generics(e[1]).split("::")[-1], []).append(s)
-    ctx.ob("pairing", "closest_peers accessed only through entry/values_mut/iter/len/values/into_values", set(used) <= allowed and {"entry", "values_mut", "into_values"} <= set(used), msg=str(sorted(used)))
+    ctx.ob("pairing", "closest_peers is never overwritten, cleared or shrunk (only entry / read accessors)", set(used) <= allowed and {"entry", "values_mut", "into_values"} <= set(used), msg=str(sorted(used)))
     vi = os_.call_sites(r"btree_map::VacantEntry::insert$")
     ctx.floor("pairing", "on_success: VacantEntry::insert", vi, 1)
     for b in (os_, of, nx):
         oi = b.call_sites(r"btree_map::OccupiedEntry::(insert|remove|remove_entry)$|btree_map::Entry::(or_insert|or_insert_with|or_default|and_modify|insert_entry)$")
         ctx.ob("pairing", "%s: known peers are never replaced or removed" % b.npath.split("::")[-1], not oi, lk.where(b), str([R(b, s)[:60] for s in oi]))
     a = prog.adt(K, r"query::peers::closest::ClosestPeersIter$")
-    ty = {f["n"]: f["ty"] for f in a["variants"][0]["fields"]}
-    ctx.ob("result", "closest_peers is a BTreeMap keyed by Distance", re.match(r"^std::collections::BTreeMap<kbucket::key::Distance, query::peers::closest::Peer>$", ty.get("closest_peers", "")) is not None, msg=ty.get("closest_peers", "?"))
+    ty = {f_["n"]: f_["ty"] for f_ in a["variants"][0]["fields"]}
+    ctx.ob("result", "closest_peers is a BTreeMap keyed by Distance", re.match(r"^std::collections::BTreeMap<kbucket::key::Distance, query::peers::closest::Peer>$", ty.get(F.peers, "")) is not None, msg=ty.get(F.peers, "?"))
     # ------------------------------------------------------------------ capacity
     tab = {}
-    sw = lk.switch_blocks(ac, r"^discr\(self\.state\)$")
+    sw = lk.switch_blocks(ac, r"^discr\(self\.%s\)$" % F.state)
+    PARP, NRP = "^" + re.escape(F.PAR) + "$", "^" + re.escape(F.NRES) + "$"
+    MAXP = r"^std::cmp::(Ord::)?max\((%s, %s|%s, %s)\)$" % (re.escape(F.NRES), re.escape(F.PAR), re.escape(F.PAR), re.escape(F.NRES))
     if len(sw) == 1:
         for t, ls in ac.switch_info(sw[0])[1].items():
-            vals = sorted({R(ac, s) for s in lk.ret_sites(ac) if s.bb in ac.reachable([t])})
+            vals = []
+            for s in lk.ret_sites(ac):
+                if s.bb not in ac.reachable([t]):
+                    continue
+                e = ac.site_expr(s)
+                if e[0] == "const":
+                    vals.append("true" if e[1] == 1 else "false")
+                elif lk.cmp_norm(e, NWP, PARP):
+                    vals.append("num_waiting %s parallelism" % lk.cmp_norm(e, NWP, PARP))
+                elif lk.cmp_norm(e, NWP, MAXP):
+                    vals.append("num_waiting %s max(num_results, parallelism)" % lk.cmp_norm(e, NWP, MAXP))
+                else:
+                    vals.append("?" + render(e)[:80])
             for l in ls:
-                tab[l] = vals
-    P = "std::num::NonZero::get(self.config.parallelism)"
-    N = "std::num::NonZero::get(self.config.num_results)"
-    want = {"Iterating": [["Ge(self.num_waiting, %s)" % P]], "Finished": [["1"]],
-            "Stalled": [["Ge(self.num_waiting, std::cmp::Ord::max(%s, %s))" % (N, P)], ["Ge(self.num_waiting, std::cmp::Ord::max(%s, %s))" % (P, N)]]}
-    ok = set(tab) == set(want) and all(tab[k] in want[k] for k in want)
-    ctx.ob("capacity", "at_capacity table", ok, lk.where(ac), "Iterating: num_waiting >= parallelism; Stalled: num_waiting >= max(num_results, parallelism); Finished: true — found %s" % str(tab)[:400])
+                tab[l] = sorted(vals)
+    want = {"Iterating": ["num_waiting Ge parallelism"], "Finished": ["true"], "Stalled": ["num_waiting Ge max(num_results, parallelism)"]}
+    ctx.ob("capacity", "at_capacity table", tab == want, lk.where(ac), "Iterating: num_waiting >= parallelism; Stalled: num_waiting >= max(num_results, parallelism); Finished: true — found %s" % str(tab)[:400])
     acs = nx.call_sites(CP + r"at_capacity$")
     ctx.floor("capacity", "next: at_capacity()", acs, 1, exact=True)
     wst = [s for s, v in peer_stores(nx) if v == "Waiting"]
     ctx.floor("capacity", "next: request issue site", wst, 1)
-    NOTCAP = lambda c, r, l: (l == "false" and r == "libp2p_kad::query::peers::closest::ClosestPeersIter::at_capacity(self)") or (l == "true" and r == "Not(libp2p_kad::query::peers::closest::ClosestPeersIter::at_capacity(self))")
+    ATCAP = "libp2p_kad::query::peers::closest::ClosestPeersIter::at_capacity(self)"
+
+    def NOTCAP(c, r, l):
+        return (l == "false" and r == ATCAP) or (l == "true" and r == "Not(%s)" % ATCAP)
+
+    def CAP(c, r, l):
+        return (l == "true" and r == ATCAP) or (l == "false" and r == "Not(%s)" % ATCAP)
     for s in wst:
         ctx.guarded("capacity", "next: new request only when not at capacity", s, NOTCAP, "at_capacity() is false")
         ok = bool(acs) and not (set(heads) & nx.reachable(nx.succ[s.bb]))
         ctx.ob("capacity", "next: returns right after issuing one request", ok, s.loc(), "the scan does not continue after state := Waiting (at_capacity() is not re-evaluated inside the loop)")
         t = R(nx, s)
-        ctx.ob("capacity", "next: request deadline = now + peer_timeout", t == "libp2p_kad::query::peers::closest::PeerState::Waiting{0: <web_time::Instant as std::ops::Add>::add(now, self.config.peer_timeout)}", s.loc(), t[-120:])
+        ctx.ob("capacity", "next: request deadline = now + peer_timeout", t == "libp2p_kad::query::peers::closest::PeerState::Waiting{0: <web_time::Instant as std::ops::Add>::add(#2, self.%s.peer_timeout)}" % F.config, s.loc(), t[-120:])
     for s in acs:
         ctx.ob("capacity", "next: capacity is evaluated before the scan", all(nx.dominates(s.bb, h) for h in heads) and all(s.bb not in nx.reachable(nx.succ[h]) for h in heads), s.loc(), "")
     res = {}
@@ -237,196 +301,263 @@ def check(ctx):
         got = cnt(nx, [0], [s.bb], wst)
         ctx.ob("capacity", "next: a handed-out peer was moved to Waiting exactly once", got == (1, 1), s.loc(), str(got))
         t = R(nx, s)
-        ctx.ob("capacity", "next: the handed-out peer is the one marked Waiting", "libp2p_kad::kbucket::key::Key::preimage(peer.key)" in t, s.loc(), t[-120:])
-    CAP = lambda c, r, l: (l == "true" and r == "libp2p_kad::query::peers::closest::ClosestPeersIter::at_capacity(self)")
+        ctx.ob("capacity", "next: the handed-out peer is the one marked Waiting", bool(sw_next) and (sw_next[1] + "." + F.p_key) in t, s.loc(), t[-160:])
     for s in res.get("WaitingAtCapacity", []):
         ctx.guarded("capacity", "next: WaitingAtCapacity only when at capacity", s, CAP, "at_capacity() is true")
-    # timeouts
     us = [s for s, v in peer_stores(nx) if v == "Unresponsive"]
     ctx.floor("capacity", "next: timeout site", us, 1)
+    DEADLINE = r"\.%s@Waiting\.0$" % F.p_state
+    expired = lk.rel_edges(nx, r"^#2$", DEADLINE, ">=")
+    live_e = lk.rel_edges(nx, r"^#2$", DEADLINE, "<")
     for s in us:
-        ctx.guarded("capacity", "next: a slot is released by timeout only if now >= deadline", s,
-                    lambda c, r, l: (l == "true" and r in ("std::cmp::PartialOrd::ge(now, peer.state@Waiting.0)", "std::cmp::PartialOrd::le(peer.state@Waiting.0, now)"))
-                    or (l == "false" and r in ("std::cmp::PartialOrd::lt(now, peer.state@Waiting.0)", "std::cmp::PartialOrd::gt(peer.state@Waiting.0, now)")), "now >= timeout")
+        ctx.ob("capacity", "next: a slot is released by timeout only if now >= deadline", lk.passes(nx, s.bb, expired), s.loc(), "now >= timeout on every path")
     # ------------------------------------------------------------------ finishing
-    fin_store = [s for s in nx.field_write_sites("state", r"closest::ClosestPeersIter$") if "State::Finished" in R(nx, s)]
-    shortcut = lib.switch_edges_on(nx, r"^discr\(self\.state\)$", {"Finished"})
-    rc_ge = set()
-    for bi in nx.live:
-        info = nx.switch_info(bi)
-        if info and re.match(r"^Ge\(cnt, std::num::NonZero::get\(self\.config\.num_results\)\)$", render(info[0])):
-            rc_ge |= {(bi, t) for t, ls in info[1].items() if ls == {"true"}}
+    fin_store = [s for s in nx.field_write_sites(F.state, r"closest::ClosestPeersIter$") if "State::Finished" in R(nx, s)]
+    shortcut = lib.switch_edges_on(nx, r"^discr\(self\.%s\)$" % F.state, {"Finished"})
+    # success counter: the Option<usize> local initialised with Some(0)
+    rcs = [l for l, ds in nx.defs.items() if isinstance(l, int) and len(ds) >= 2 and any(d[0] == "stmt" and render(nx.rvalue_expr(d[3])) == "std::option::Option::Some{0: 0}" for d in ds)]
+    ctx.ob("finish", "floor:next: success counter local", len(rcs) == 1, lk.where(nx), nontrivial=False, msg=str(rcs))
+    rc = rcs[0] if rcs else -1
+    RC = re.escape(nx.names.get(rc, "?"))
+    CNTP = "^" + RC + r"@Some\.0$"
+    rc_ge = lk.rel_edges(nx, CNTP, NRP, ">=")
     exhausted = set()
-    for h in heads:
-        exhausted |= lib.switch_edges_on_site(nx, mir.Site(nx, h), {"None"})
-    idle = lib.switch_edges_on(nx, r"^Gt\(self\.num_waiting, 0\)$", {"false"}) | lib.switch_edges_on(nx, r"^Eq\(self\.num_waiting, 0\)$", {"true"})
-    busy = lib.switch_edges_on(nx, r"^Gt\(self\.num_waiting, 0\)$", {"true"}) | lib.switch_edges_on(nx, r"^Eq\(self\.num_waiting, 0\)$", {"false"})
+    for h in heads_s:
+        exhausted |= lib.switch_edges_on_site(nx, h, {"None"})
+    idle = lk.rel_edges(nx, NWP, r"^0$", "<=")
+    busy = lk.rel_edges(nx, NWP, r"^0$", ">") | lk.rel_edges(nx, NWP, r"^0$", "!=")
     ctx.ob("finish", "floor:next: finishing tests", bool(rc_ge) and bool(exhausted) and bool(idle) and bool(busy) and bool(shortcut), lk.where(nx), nontrivial=False, msg="%s %s %s" % (rc_ge, exhausted, idle))
     for s in res.get("Finished", []):
         if shortcut and nx.must_pass_edges(s.bb, shortcut):
             continue
-        a_ = bool(rc_ge) and nx.must_pass_edges(s.bb, rc_ge)
-        b_ = bool(exhausted) and bool(idle) and nx.must_pass_edges(s.bb, exhausted) and nx.must_pass_edges(s.bb, idle)
+        a_ = lk.passes(nx, s.bb, rc_ge)
+        b_ = lk.passes(nx, s.bb, exhausted) and lk.passes(nx, s.bb, idle)
         ctx.ob("finish", "next: Finished only when num_results closest peers succeeded or nothing is left and nothing is in flight", a_ or b_, s.loc(),
                "counter >= num_results edge: %s; exhausted and num_waiting == 0 edges: %s" % (a_, b_))
         got = cnt(nx, [0], [s.bb], fin_store)
         ctx.ob("finish", "next: reporting Finished stores State::Finished", got == (1, 1), s.loc(), str(got))
     for s in res.get("Waiting(None)", []):
-        ctx.ob("finish", "next: Waiting(None) only when exhausted with requests in flight", bool(busy) and nx.must_pass_edges(s.bb, exhausted) and nx.must_pass_edges(s.bb, busy), s.loc(), "")
-    # success counter discipline
-    rc = lib.local_by_name(nx, "result_counter")
+        ctx.ob("finish", "next: Waiting(None) only when exhausted with requests in flight", lk.passes(nx, s.bb, exhausted) and lk.passes(nx, s.bb, busy), s.loc(), "")
     defs = []
     for d in nx.defs.get(rc, []):
         defs.append((mir.Site(nx, d[1], d[2]), render(nx.rvalue_expr(d[3])) if d[0] == "stmt" else "call"))
     resets = [s for s, t in defs if t == "std::option::Option::None{}"]
     inits = [s for s, t in defs if t == "std::option::Option::Some{0: 0}"]
     ctx.ob("finish", "next: success counter starts at Some(0) and is otherwise only reset to None", len(inits) == 1 and len(resets) >= 1 and len(defs) == len(inits) + len(resets), lk.where(nx), str([t for _, t in defs]))
-    sw = lk.switch_blocks(nx, r"^discr\(peer\.state\)$")
-    if len(sw) == 1:
-        labs = nx.switch_info(sw[0])[1]
+    if sw_next:
+        labs = nx.switch_info(sw_next[0])[1]
         exits = nx.return_blocks() + heads
         for t, ls in labs.items():
             if ls == {"Waiting"}:
-                live = [x for (_, x) in nx.guard_edges(lambda c, r, l: (l == "false" and r == "std::cmp::PartialOrd::ge(now, peer.state@Waiting.0)") or (l == "true" and r == "std::cmp::PartialOrd::lt(now, peer.state@Waiting.0)"))]
+                live = tg(live_e)
                 got = cnt(nx, live, heads, resets) if live else None
                 ctx.ob("finish", "next: a live Waiting peer resets the success counter", got == (1, 1), lk.where(nx),
                        "paths from `now < deadline` back to the scan pass `result_counter = None`: %s (else the lookup can finish with a closer peer still waiting)" % (got,))
             if ls == {"NotContacted"}:
                 back = set(heads) & nx.reachable([t])
                 ctx.ob("finish", "next: the scan never continues past a NotContacted peer", not back, lk.where(nx), "the NotContacted arm always returns")
-        # counter increments only in the Succeeded arm
-        cnt_refs = [l for l, ds in nx.defs.items() if isinstance(l, int) and len(ds) == 1 and ds[0][0] == "stmt" and ds[0][3]["k"] in ("ref",) and ds[0][3]["p"]["l"] == rc]
         incs = []
         for bi in sorted(nx.live):
-            for si, st in enumerate(nx.blocks[bi]["stmts"]):
-                if st["k"] == "assign" and st["p"]["l"] in cnt_refs and st["p"].get("pr"):
+            for si, st_ in enumerate(nx.blocks[bi]["stmts"]):
+                if st_["k"] == "assign" and st_["p"].get("pr") and re.match(CNTP, render(nx.place_expr(st_["p"]))):
                     incs.append(mir.Site(nx, bi, si))
         ctx.floor("finish", "next: success counter increment", incs, 1)
         succ_arm = [t for t, ls in labs.items() if ls == {"Succeeded"}]
         for s in incs:
             ok = bool(succ_arm) and s.bb in nx.reachable(succ_arm, stop_nodes=exits) and all(s.bb not in nx.reachable([t], stop_nodes=exits) for t, ls in labs.items() if ls != {"Succeeded"})
-            ctx.ob("finish", "next: only Succeeded peers are counted towards num_results", ok and R(nx, s) == "AddWithOverflow(cnt, 1).0", s.loc(), R(nx, s))
+            ctx.ob("finish", "next: only Succeeded peers are counted towards num_results", ok and re.match(r"^Add(WithOverflow)?\(%s@Some\.0, 1\)(\.0)?$" % RC, R(nx, s)) is not None, s.loc(), R(nx, s))
     for b, fn in ((os_, "on_success"), (of, "on_failure")):
+        sws = state_switch(b)
         for s in lk.ret_sites(b):
-            if R(b, s) == "1":
-                sc = lib.switch_edges_on(b, r"^discr\(self\.state\)$", {"Iterating", "Stalled"})
-                sc = {(x, y) for (x, y) in sc if x == 0 or b.dominates(x, lk.switch_blocks(b, E)[0])}
-                ctx.ob("finish", "%s: a finished lookup accepts no more results" % fn, bool(sc) and b.must_pass_edges(s.bb, sc), s.loc(), "returns true only when not Finished")
+            if R(b, s) == "1" and sws:
+                sc = lib.switch_edges_on(b, r"^discr\(self\.%s\)$" % F.state, {"Iterating", "Stalled"})
+                sc = {(x, y) for (x, y) in sc if x == 0 or b.dominates(x, sws[0][0])}
+                ctx.ob("finish", "%s: a finished lookup accepts no more results" % fn, lk.passes(b, s.bb, sc), s.loc(), "returns true only when not Finished")
     # ------------------------------------------------------------------ result
     ir = ctx.body(K, CP + r"into_result$")
-    rs = [R(ir, s) for s in lk.ret_sites(ir)]
-    ok = len(rs) == 1 and re.match(r"^std::iter::Iterator::take\(std::iter::Iterator::filter_map\(std::collections::BTreeMap::into_values\(self\.closest_peers\), closure:.*\[\]\), std::num::NonZero::get\(self\.config\.num_results\)\)$", rs[0]) is not None
-    ctx.ob("result", "into_result = filter Succeeded, take(num_results)", ok, lk.where(ir), str(rs)[:300])
-    cl = ctx.body(K, CP + r"into_result::\{closure#0\}$")
+    es = [ir.site_expr(s) for s in lk.ret_sites(ir)]
+    ok = False
+    if len(es) == 1:
+        x = es[0]
+        adaptors, takes = [], []
+        while x[0] == "call" and re.search(r"iter::Iterator::\w+$", strip_generics(x[1])):
+            nm = strip_generics(x[1]).split("::")[-1]
+            adaptors.append(nm)
+            if nm == "take":
+                takes.append(render(x[2][1]))
+            x = x[2][0]
+        ok = (takes == [F.NRES] and set(adaptors) <= {"take", "filter_map", "filter", "map"} and ({"filter_map", "filter"} & set(adaptors))
+              and render(x) == "std::collections::BTreeMap::into_values(%s)" % F.PEERS)
+    ctx.ob("result", "into_result = filter Succeeded, take(num_results)", ok, lk.where(ir), str([render(e) for e in es])[:300])
+    cls = [c for c in prog.bodies(K) if c.kind == "closure" and lk.root_fn(prog, c) is ir]
     tab = {}
-    sw = lk.switch_blocks(cl, r"^discr\(peer\.state\)$")
-    if len(sw) == 1:
-        for t, ls in cl.switch_info(sw[0])[1].items():
-            vals = sorted({R(cl, s) for s in lk.ret_sites(cl) if s.bb in cl.reachable([t])})
-            for l in ls:
-                tab[l] = vals
-    want = {"Succeeded": ["std::option::Option::Some{0: libp2p_kad::kbucket::key::Key::into_preimage(peer.key)}"]}
+    for cl in cls:
+        for bi in sorted(cl.live):
+            info = cl.switch_info(bi)
+            if info and render(info[0]) == "discr(#2.%s)" % F.p_state:
+                for t, ls in info[1].items():
+                    vals = sorted({R(cl, s) for s in lk.ret_sites(cl) if s.bb in cl.reachable([t])})
+                    for l in ls:
+                        tab[l] = vals
+    want = {"Succeeded": ["std::option::Option::Some{0: #2.%s.preimage}" % F.p_key]}
     for v in ("Failed", "NotContacted", "Unresponsive", "Waiting"):
         want[v] = ["std::option::Option::None{}"]
-    ctx.ob("result", "into_result keeps exactly the peers that responded", tab == want, lk.where(cl), str(tab)[:300])
+    if set(tab) == set(want) and all(tab[v] == ["0"] for v in want if v != "Succeeded") and tab["Succeeded"] == ["1"]:
+        # `.filter(|p| matches!(p.state, Succeeded)).map(|p| p.key.into_preimage())`: boolean filter + projection
+        tab = {v: (["std::option::Option::None{}"] if v != "Succeeded" else ["std::option::Option::Some{0: #2.%s.%s}" % (F.p_key, "preimage")]) for v in want}
+    ok = set(tab) == set(want) and all(tab[v] == want[v] for v in want if v != "Succeeded") and len(tab["Succeeded"]) == 1 and re.match(r"^std::option::Option::Some\{0: (#2\.%s\.\w+|libp2p_kad::kbucket::key::Key::into_preimage\(#2\.%s\))\}$" % (F.p_key, F.p_key), tab["Succeeded"][0]) is not None
+    ctx.ob("result", "into_result keeps exactly the peers that responded", ok, lk.where(ir), str(tab)[:300])
     check_fixed(ctx, prog)
     check_disjoint(ctx, prog)
 
 
 def check_fixed(ctx, prog):
     FP = r"^libp2p_kad::query::peers::fixed::FixedPeersIter::"
+    fp = r"query::peers::fixed::FixedPeersIter$"
+    f_par = lk.fld(prog, fp, r"NonZero<usize>$")
+    f_peers = lk.fld(prog, fp, r"HashMap<")
+    f_iter = lk.fld(prog, fp, r"IntoIter<")
+    f_state = lk.fld(prog, fp, r"fixed::State$")
+    f_nw = lk.fld(prog, r"query::peers::fixed::State$", r"^usize$")
+    NW = r"^self\.%s@Waiting\.%s$" % (f_state, f_nw)
+    PAR = r"^std::num::NonZero::get\(self\.%s\)$" % f_par
     nx = ctx.body(K, FP + r"next$")
     W = lk.where(nx)
     rets = nx.return_blocks()
     ins = [s for s in nx.call_sites(r"hash_map::VacantEntry::insert$") if "fixed::PeerState::Waiting{}" in R(nx, s)]
     ctx.floor("fixed", "next: insert(PeerState::Waiting)", ins, 1, exact=True)
-    eff = lk.field_effects(nx, "num_waiting")
+    eff = lk.field_effects(nx, f_nw)
     incs = [s for s, k, _ in eff if k == "inc"]
     ctx.ob("fixed", "next: num_waiting only incremented", [k for _, k, _ in eff] == ["inc"], W, str([(k, t) for _, k, t in eff]))
-    heads = lib.bbs(nx.call_sites(r"vec::IntoIter as std::iter::Iterator>::next$"))
+    heads_s = [s for s in nx.call_sites(r"Iterator>?::next$") if render(nx.site_expr(s)[2][0]) == "self.%s" % f_iter]
+    heads = lib.bbs(heads_s)
     for s in ins:
-        lib.limit_guard(ctx, "fixed", "new request only below parallelism", s, r"^num_waiting$", r"^std::num::NonZero::get\(self\.parallelism\)$", "num_waiting < parallelism")
+        lk.limit(ctx, "fixed", "new request only below parallelism", s, NW, PAR, "num_waiting < parallelism")
         got = add(cnt(nx, [0], [s.bb], incs), cnt(nx, nx.succ[s.bb], rets, incs))
         ctx.ob("fixed", "new request is counted exactly once", got == (1, 1), s.loc(), str(got))
-        ctx.guarded("fixed", "a peer is contacted at most once (vacant entry)", s, lambda c, r, l: l == "Vacant" and r.startswith("discr(std::collections::HashMap::entry(self.peers, "), "entry is Vacant")
+        ctx.guarded("fixed", "a peer is contacted at most once (vacant entry)", s, lambda c, r, l: l == "Vacant" and r.startswith("discr(std::collections::HashMap::entry(self.%s, " % f_peers), "entry is Vacant")
         ctx.ob("fixed", "next: returns right after issuing one request", not (set(heads) & nx.reachable(nx.succ[s.bb])), s.loc(), "")
     for s in incs:
         got = add(cnt(nx, [0], [s.bb], ins), cnt(nx, nx.succ[s.bb], rets, ins))
         ctx.ob("fixed", "every increment comes with a new Waiting peer", got == (1, 1), s.loc(), str(got))
     fin = [s for s in lk.ret_sites(nx) if R(nx, s) == "libp2p_kad::query::peers::PeersIterState::Finished{}"]
-    zero = lib.switch_edges_on(nx, r"^Eq\(num_waiting, 0\)$", {"true"})
-    done = lib.switch_edges_on(nx, r"^discr\(self\.state\)$", {"Finished"})
+    zero = lk.rel_edges(nx, NW, r"^0$", "<=")
+    done = lib.switch_edges_on(nx, r"^discr\(self\.%s\)$" % f_state, {"Finished"})
     for s in fin:
         if done and nx.must_pass_edges(s.bb, done):
             continue
         ex = set()
-        for h in heads:
-            ex |= lib.switch_edges_on_site(nx, mir.Site(nx, h), {"None"})
-        ctx.ob("fixed", "Finished only when exhausted and nothing in flight", bool(zero) and bool(ex) and nx.must_pass_edges(s.bb, zero) and nx.must_pass_edges(s.bb, ex), s.loc(), "")
+        for h in heads_s:
+            ex |= lib.switch_edges_on_site(nx, h, {"None"})
+        ctx.ob("fixed", "Finished only when exhausted and nothing in flight", lk.passes(nx, s.bb, zero) and lk.passes(nx, s.bb, ex), s.loc(), "")
     for fn, new in (("on_success", "Succeeded"), ("on_failure", "Failed")):
         b = ctx.body(K, FP + fn + "$")
         st = b.agg_sites(r"peers::fixed::PeerState$")
-        eff = lk.field_effects(b, "num_waiting")
+        eff = lk.field_effects(b, f_nw)
         decs = [s for s, k, _ in eff if k == "dec"]
         ctx.ob("fixed", fn + ": one store, one decrement site", len(st) == 1 and [k for _, k, _ in eff] == ["dec"], lk.where(b), "%d stores, %s" % (len(st), [k for _, k, _ in eff]))
-        wait = b.guard_edges(lambda c, r, l: l == "Waiting" and r == "discr(std::collections::HashMap::get_mut(self.peers, peer)@Some.0)")
+        wait = b.guard_edges(lambda c, r, l: l == "Waiting" and r == "discr(std::collections::HashMap::get_mut(self.%s, #2)@Some.0)" % f_peers)
         for s in st:
             ctx.ob("fixed", fn + ": stores " + new, lib.agg_variants(b.site_expr(s), r"fixed::PeerState$") == [new], s.loc(), R(b, s))
-            ctx.ob("fixed", fn + ": only a Waiting peer changes state", bool(wait) and b.must_pass_edges(s.bb, wait), s.loc(), "")
+            ctx.ob("fixed", fn + ": only a Waiting peer changes state", lk.passes(b, s.bb, wait), s.loc(), "")
             got = add(cnt(b, [0], [s.bb], decs), cnt(b, b.succ[s.bb], b.return_blocks(), decs))
             ctx.ob("fixed", fn + ": leaving Waiting is paired with one decrement", got == (1, 1), s.loc(), str(got))
         for s in decs:
-            ctx.ob("fixed", fn + ": decrement only for a Waiting peer", bool(wait) and b.must_pass_edges(s.bb, wait), s.loc(), "")
-    cl = ctx.body(K, FP + r"into_result::\{closure#0\}$")
-    sw = lk.switch_blocks(cl, r"^discr\(arg2\.1\)$")
+            ctx.ob("fixed", fn + ": decrement only for a Waiting peer", lk.passes(b, s.bb, wait), s.loc(), "")
+    ir = ctx.body(K, FP + r"into_result$")
+    cls = [c for c in prog.bodies(K) if c.kind == "closure" and lk.root_fn(prog, c) is ir]
     tab = {}
-    if len(sw) == 1:
-        for t, ls in cl.switch_info(sw[0])[1].items():
-            for l in ls:
-                tab[l] = sorted({R(cl, s) for s in lk.ret_sites(cl) if s.bb in cl.reachable([t])})
-    ctx.ob("fixed", "into_result keeps exactly the peers that responded", tab == {"Succeeded": ["std::option::Option::Some{0: arg2.0}"], "Failed": ["std::option::Option::None{}"], "Waiting": ["std::option::Option::None{}"]}, lk.where(cl), str(tab))
+    for cl in cls:
+        for bi in sorted(cl.live):
+            info = cl.switch_info(bi)
+            if info and render(info[0]) == "discr(#2.1)":
+                for t, ls in info[1].items():
+                    for l in ls:
+                        tab[l] = sorted({R(cl, s) for s in lk.ret_sites(cl) if s.bb in cl.reachable([t])})
+    ctx.ob("fixed", "into_result keeps exactly the peers that responded", tab == {"Succeeded": ["std::option::Option::Some{0: #2.0}"], "Failed": ["std::option::Option::None{}"], "Waiting": ["std::option::Option::None{}"]}, lk.where(ir), str(tab))
 
 
 def check_disjoint(ctx, prog):
     DP = r"^libp2p_kad::query::peers::closest::disjoint::ClosestDisjointPeersIter::"
+    dp = r"disjoint::ClosestDisjointPeersIter$"
+    f_contacted = lk.fld(prog, dp, r"^std::collections::HashMap<")
+    f_iters = lk.fld(prog, dp, r"^std::vec::Vec<query::peers::closest::ClosestPeersIter>$")
+    f_order = lk.fld(prog, dp, r"^std::iter::Cycle<")
+    f_init = lk.fld(prog, r"disjoint::PeerState$", r"IteratorIndex$")
     nx = ctx.body(K, DP + r"next$")
-    ins = [s for s in nx.call_sites(r"HashMap::insert$") if render(nx.site_expr(s)[2][0]) == "self.contacted_peers"]
+    CONT = "self.%s" % f_contacted
+    ins = [s for s in nx.call_sites(r"HashMap::insert$") if render(nx.site_expr(s)[2][0]) == CONT]
     ctx.floor("disjoint", "next: contacted_peers.insert", ins, 1, exact=True)
-    miss = nx.guard_edges(lambda c, r, l: l == "None" and r.startswith("discr(std::collections::HashMap::get_mut(self.contacted_peers, "))
+    miss = nx.guard_edges(lambda c, r, l: l == "None" and r.startswith("discr(std::collections::HashMap::get_mut(%s, " % CONT))
     for s in ins:
-        ctx.ob("disjoint", "a peer is recorded as contacted only on first contact", bool(miss) and nx.must_pass_edges(s.bb, miss), s.loc(), "contacted_peers.get_mut(peer) is None")
-        t = R(nx, s)
-        ctx.ob("disjoint", "the contacting path is the iterator that yielded the peer", re.search(r"disjoint::PeerState::new\(std::option::Option::expect\(<std::iter::Cycle as std::iter::Iterator>::next\(self\.iter_order\), ", t) is not None, s.loc(), t[-200:])
+        ctx.ob("disjoint", "a peer is recorded as contacted only on first contact", lk.passes(nx, s.bb, miss), s.loc(), "contacted_peers.get_mut(peer) is None")
+        e = nx.site_expr(s)
+        v = e[2][2]
+        fv = dict(v[4]) if v[0] == "agg" else {}
+        t = render(fv.get(f_init, v))
+        ctx.ob("disjoint", "the contacting path is the iterator that yielded the peer", "Iterator>::next(self.%s)" % f_order in t, s.loc(), t[-200:])
     outs = [s for s in lk.ret_sites(nx) if "PeersIterState::Waiting{0: std::option::Option::Some" in R(nx, s)]
     ctx.floor("disjoint", "next: yielded peer", outs, 1)
     for s in outs:
         got = cnt(nx, tg(miss), [s.bb], ins) if miss else None
-        ctx.ob("disjoint", "a peer is yielded only on first contact and recorded exactly once", bool(miss) and nx.must_pass_edges(s.bb, miss) and got == (1, 1), s.loc(), str(got))
+        ctx.ob("disjoint", "a peer is yielded only on first contact and recorded exactly once", lk.passes(nx, s.bb, miss) and got == (1, 1), s.loc(), str(got))
     os_ = ctx.body(K, DP + r"on_success$")
     calls = os_.call_sites(CP + r"on_success$")
     ctx.floor("disjoint", "on_success: forwarded calls", calls, 2)
-    full = [s for s in calls if render(os_.site_expr(s)[2][2]) == "closer_peers"]
+    full = [s for s in calls if render(os_.site_expr(s)[2][2]) == "#3"]
     rest = [s for s in calls if s not in full]
-    ok = len(full) == 1 and re.search(r"index_mut\(self\.iters, .*initiated_by", R(os_, full[0])) is not None
-    ctx.ob("disjoint", "closer peers are passed only to the path that initiated the request", ok, lk.where(os_), str([R(os_, s)[:120] for s in full]))
+    ok = len(full) == 1 and re.search(r"\(self\.%s, .*@Some\.0\.%s" % (f_iters, f_init), R(os_, full[0])) is not None
+    ctx.ob("disjoint", "closer peers are passed only to the path that initiated the request", ok, lk.where(os_), str([R(os_, s)[:160] for s in full]))
     ctx.ob("disjoint", "other paths learn the outcome but no peers", bool(rest) and all(render(os_.site_expr(s)[2][2]) == "std::iter::empty()" for s in rest), lk.where(os_), str([render(os_.site_expr(s)[2][2]) for s in rest]))
-    ri = ctx.body(K, r"disjoint::ResultIter as std::iter::Iterator>::next::\{closure#0\}$")
-    sw = [bi for bi in ri.live if ri.switch_info(bi) and re.match(r"^std::cmp::PartialOrd::(lt|le|gt|ge)\(libp2p_kad::kbucket::key::KeyBytes::distance\(", render(ri.switch_info(bi)[0]))]
-    ctx.ob("disjoint", "floor:ResultIter distance comparison", len(sw) == 1, lk.where(ri), nontrivial=False, msg=str(sw))
-    for bi in sw:
-        cond, labs = ri.switch_info(bi)
-        op = strip_generics(cond[1]).split("::")[-1]
-        heads = []
-        for x in cond[2]:
-            m = re.match(r"^libp2p_kad::kbucket::key::KeyBytes::distance\(\^\*target, std::iter::Peekable::peek\((.*)\)@Some\.0\)$", render(x))
-            heads.append(m.group(1) if m else None)
-        pick = {}
-        for t, ls in labs.items():
-            vals = sorted({R(ri, s) for s in lk.ret_sites(ri) if s.bb in ri.reachable([t]) and ri.dominates(t, s.bb)})
-            pick["|".join(sorted(ls))] = vals
-        ok = None not in heads and len(heads) == 2 and heads[0] != heads[1]
-        if ok:
-            closer_when_true = heads[0] if op in ("lt", "le") else heads[1]
-            other = heads[1] if op in ("lt", "le") else heads[0]
+    rin = ctx.body(K, r"disjoint::ResultIter as std::iter::Iterator>::next$")
+    ris = [c for c in prog.bodies(K) if c.kind == "closure" and lk.root_fn(prog, c) is rin]
+    found = []
+    for ri in ris:
+        for bi in sorted(ri.live):
+            info = ri.switch_info(bi)
+            if not info:
+                continue
+            c = lk.as_cmp(info[0])
+            if not c or c[0] not in ("Lt", "Le", "Gt", "Ge"):
+                continue
+            heads = []
+            for x in (c[1], c[2]):
+                m = re.match(r"^libp2p_kad::kbucket::key::KeyBytes::distance\(\^0, std::iter::Peekable::peek\((.*)\)@Some\.0\)(\.0)?$", render(x))
+                heads.append(m.group(1) if m else None)
+            if None in heads or heads[0] == heads[1]:
+                continue
+            pick = {}
+            for t, ls in info[1].items():
+                vals = sorted({R(ri, s) for s in lk.ret_sites(ri) if s.bb in ri.reachable([t]) and ri.dominates(t, s.bb)})
+                pick["|".join(sorted(ls))] = vals
+            closer_when_true = heads[0] if c[0] in ("Lt", "Le") else heads[1]
+            other = heads[1] if c[0] in ("Lt", "Le") else heads[0]
             ok = pick.get("true") == ["std::option::Option::Some{0: %s}" % closer_when_true] and pick.get("false") == ["std::option::Option::Some{0: %s}" % other]
-        ctx.ob("disjoint", "ResultIter yields the closer head first", ok, lk.where(ri), "%s(distance(target, head of %s), distance(target, head of %s)) -> %s" % (op, heads[0], heads[1], pick))
+            found.append((ri, ok, "%s(distance(target, head of %s), distance(target, head of %s)) -> %s" % (c[0], heads[0], heads[1], pick)))
+    ctx.ob("disjoint", "floor:ResultIter distance comparison", len(found) == 1, lk.where(rin), nontrivial=False, msg=str(len(found)))
+    for ri, ok, msg in found:
+        ctx.ob("disjoint", "ResultIter yields the closer head first", ok, lk.where(ri), msg)
+
+# thorough-tier sensitivity self-test (vrules/selftest.py): one-edit variants of the source that break the property
+MUTANTS = [
+    {"name": 'next: increment dropped', "file": 'protocols/kad/src/query/peers/closest.rs',
+     "find": '                        peer.state = PeerState::Waiting(timeout);\n                        self.num_waiting += 1;\n',
+     "replace": '                        peer.state = PeerState::Waiting(timeout);\n',
+     "expect": '^pairing/next: entering Waiting is paired', "why": 'unbounded in-flight requests'},
+    {"name": 'at_capacity Iterating >= -> >', "file": 'protocols/kad/src/query/peers/closest.rs',
+     "find": 'State::Iterating { .. } => self.num_waiting >= self.config.parallelism.get(),',
+     "replace": 'State::Iterating { .. } => self.num_waiting > self.config.parallelism.get(),',
+     "expect": '^capacity/at_capacity table', "why": 'parallelism + 1 requests'},
+    {"name": 'into_result: take dropped', "file": 'protocols/kad/src/query/peers/closest.rs',
+     "find": '            .take(self.config.num_results.get())\n    }',
+     "replace": '    }',
+     "expect": '^result/into_result = filter Succeeded, take', "why": 'more than num_results peers returned'},
+    {"name": 'fixed: >= -> >', "file": 'protocols/kad/src/query/peers/fixed.rs',
+     "find": 'if *num_waiting >= self.parallelism.get() {',
+     "replace": 'if *num_waiting > self.parallelism.get() {',
+     "expect": '^fixed/new request only below parallelism', "why": 'parallelism + 1 requests'},
+    {"name": 'next: success counter not reset', "file": 'protocols/kad/src/query/peers/closest.rs',
+     "find": '                        result_counter = None;\n',
+     "replace": '',
+     "expect": '^finish/next: a live Waiting peer resets', "why": 'finishes with a closer peer still waiting'},
+]
